@@ -335,14 +335,35 @@ func finish(c px.Context, root *node) (text string, ok bool) {
 	return sb.String(), true
 }
 
+// userPtype: some hash has the key __ptype.  What the deserializer makes of such a hash depends on constructors the
+// model does not cover (px.New(Array[String], {}) …); randomly generated ones run on the implementation only, the
+// hand-written witnesses of the known finding are compared with the model
+func userPtype(n *node) bool {
+	if n.kind == "h" {
+		for i := 0; i < len(n.kids); i += 2 {
+			if n.kids[i].kind == "s" && n.kids[i].s == "__ptype" {
+				return true
+			}
+		}
+	}
+	for _, k := range n.kids {
+		if userPtype(k) {
+			return true
+		}
+	}
+	return false
+}
+
 // the whole option x capability matrix for one value
-func emitMatrix(g *core.G, c px.Context, root *node) {
+func emitMatrix(g *core.G, c px.Context, root *node) { emitMatrix2(g, c, root, false) }
+
+func emitMatrix2(g *core.G, c px.Context, root *node, random bool) {
 	val, ok := finish(c, root)
 	if !ok {
 		panic("generator produced a value pcore cannot build: " + fmt.Sprint(root.kind))
 	}
 	hard := hardKey(root, map[*node]bool{})
-	only := implOnly(root)
+	only := implOnly(root) || (random && userPtype(root))
 	for _, rich := range []bool{true, false} {
 		for _, lref := range []bool{true, false} {
 			for dedup := 0; dedup <= 2; dedup++ {
@@ -496,7 +517,7 @@ func gen(g *core.G) {
 	// random DAGs with deliberate sharing
 	for i := 0; i < 300*g.Scale/2+150; i++ {
 		vg := &vgen{r: g.Rng}
-		emitMatrix(g, c, vg.value(1+g.Rng.Intn(3), false))
+		emitMatrix2(g, c, vg.value(1+g.Rng.Intn(3), false), true)
 	}
 	// the real leaf codecs on their own (implementation only)
 	for _, k := range leafKinds {
